@@ -29,7 +29,7 @@
 EXTENDS Naturals, Sequences, FiniteSets
 
 CondP0 == [holder |-> 0, acq |-> {}, inwait |-> {}, waiting |-> <<>>, notified |-> {},
-           passed |-> {}, gone |-> {}, creq |-> {}, refuse |-> {},
+           passed |-> {}, gone |-> {}, creq |-> {}, native |-> {}, refuse |-> {},
            taint |-> FALSE]   \* known finding F8 has occurred: the observer is out of sync from here on
 
 CNames(r) == {n \in DOMAIN r : ~r[n]}
@@ -93,7 +93,9 @@ CondApply0(p, e) ==
                     MutualExclusion |-> e.owner = e.t => p.holder = 0,
                     NotificationPassedOn |->
                         (e.owner = e.t /\ e.t \in p.notified /\ e.t \notin p.passed) => p.waiting = <<>>,
-                    WaitInterruptedInReacquire |-> e.owner = e.t]
+                    \* the re-acquire is shielded: only a NATIVE cancellation can interrupt it (F8)
+                    WaitInterruptedInReacquire |-> (e.t \in p.native) => e.owner = e.t,
+                    WaitRaisesHoldingTheLock |-> (e.t \notin p.native) => e.owner = e.t]
              p1 == [p EXCEPT !.holder = IF e.owner = e.t THEN e.t ELSE @,
                              !.inwait = @ \ {e.t}, !.notified = @ \ {e.t}, !.passed = @ \ {e.t},
                              !.gone = @ \ {e.t}, !.waiting = CRemove(@, e.t)]
@@ -119,7 +121,9 @@ CondApply0(p, e) ==
               IN [p |-> p1,
                   bad |-> CNames([RefusedUnlessHolding |-> p.holder = e.t]) \cup CNames(ObsOk(p1, e))]
          ELSE [p |-> p, bad |-> CNames([HolderMayNotify |-> p.holder # e.t])]
-    [] e.ev = "creq" -> [p |-> [p EXCEPT !.creq = @ \cup {e.t}], bad |-> {}]
+    [] e.ev = "creq" ->
+         [p |-> [p EXCEPT !.creq = @ \cup {e.t}, !.native = IF e.kind = "native" THEN @ \cup {e.t} ELSE @],
+          bad |-> {}]
     [] e.ev = "quiescent" ->
          \* nobody who holds a notification is left asleep while the lock is free, and nobody is
          \* left waiting for a free lock
